@@ -541,7 +541,7 @@ class Writer(object):
             for i, it in enumerate(items[1:]):
                 body += self.sepr('%s[%d]' % (p, i)) + it
             if style == 'trailing':
-                return '[' + body + ',]'
+                return '[' + body + sp(p + '.tsep', [',', ' ,', ', ', ' , ']) + ']'
             if style == 'padded':
                 return '[ ' + body + ' ]'
             return '[' + body + ']'
